@@ -20,7 +20,7 @@ amock = A.mock
 
 MODNAME = "simq_c19_target"
 TARGETS = ["fn", "meth", "cmeth", "smeth", "attr"]
-REPLS = ["default", "function", "bound", "callable", "callable_shared", "new_callable", "noncallable"]
+REPLS = ["default", "function", "bound", "callable", "callable_shared", "returns_future", "new_callable", "noncallable"]
 
 
 def build_module():
@@ -71,6 +71,16 @@ class CallableObj(object):
 
     def __call__(self, *args, **kw):
         return ("repl", "callable", self.n, args, tuple(sorted(kw.items())))
+
+
+class FutureReturning(object):
+    """A replacement whose result happens to be an asynq future object (a legal return value)."""
+
+    def __init__(self, n):
+        self.n = n
+
+    def __call__(self, *args, **kw):
+        return A.ConstFuture(("inner", self.n, args))
 
 
 class C19(object):
@@ -166,6 +176,8 @@ class C19(object):
                 args = [Other(serial).repl]
             elif kind == "callable":
                 args = [CallableObj(serial)]
+            elif kind == "returns_future":
+                args = [FutureReturning(serial)]
             elif kind == "new_callable":
                 kw["new_callable"] = lambda: CallableObj(serial)
             elif kind == "noncallable":
@@ -204,6 +216,8 @@ class C19(object):
                 return ("V", ("repl", "bound", serial, pos, ()))
             if kind == "callable_shared":
                 return ("V", ("repl", "callable", "shared", pos, ()))
+            if kind == "returns_future":
+                return ("F", ("inner", serial, pos))
             if kind in ("callable", "new_callable"):
                 return ("V", ("repl", "callable", serial, pos, ()))
             return ("N", None)
@@ -214,7 +228,7 @@ class C19(object):
                 # not callable: identity / value only
                 cur = current(t)
                 want = originals[t] if not stacks[t] else stacks[t][-1][2]
-                if stacks[t] and stacks[t][-1][0] in ("default", "new_callable", "callable", "callable_shared", "bound", "function"):
+                if stacks[t] and stacks[t][-1][0] in ("default", "new_callable", "callable", "callable_shared", "returns_future", "bound", "function"):
                     return
                 if want is not None and cur is not want and cur != want:
                     out.append(("installed", "target %s holds %r, the model says %r" % (t, cur, want)))
@@ -232,6 +246,12 @@ class C19(object):
                     got = tgt.asynq(*pos).value()
                 elif conv == "asyncio":
                     got = asyncio.run(tgt.asyncio(*pos))
+                elif conv == "yield_in_asyncio":
+                    # a task that yields target.asynq(...) and is itself driven through .asyncio()
+                    @A.asynq()
+                    def aio_caller():
+                        return (yield tgt.asynq(*pos))
+                    got = asyncio.run(aio_caller.asyncio())
                 else:
                     @A.asynq()
                     def competitor(i):
@@ -252,6 +272,12 @@ class C19(object):
                 raise
             except BaseException as e:
                 got = ("EXC", type(e).__name__, str(e)[:100])
+            if exp[0] == "F":
+                # every convention must deliver the very result of the replacement: a ConstFuture
+                if not isinstance(got, A.ConstFuture) or got.value() != exp[1]:
+                    out.append(("reach-replacement", "%s via %s: the replacement returns a future object %r; this convention delivered %r" % (
+                        t, conv, exp[1], got.value() if isinstance(got, A.FutureBase) else got)))
+                return
             if exp[0] == "M":
                 m = exp[1]
                 ok = got is m.return_value
